@@ -15,7 +15,7 @@ def parseOpts (s : String) : Opts :=
     defaultAlg := (g "alg" "sha1").toUTF8.toList, defaultEnc := Enc.ofCode (parseNat (g "enc" "2")) }
 
 /-- oracle table: entries kind:valuehex:bit, and gzip verdicts z:offset:status:consumed:contenthex -/
-def parseOracles (s : String) : Oracles :=
+def parseOracles (s : String) (total : Nat := 0) : Oracles :=
   let raw : List (List String) := if s == "-" then [] else (s.splitOn ",").map (fun e => e.splitOn ":")
   let entries : List (String × Bytes × Bool) := raw.filterMap (fun e =>
     match e with
@@ -34,7 +34,8 @@ def parseOracles (s : String) : Oracles :=
     | some e => e.2.2
     | none => false
   { time := look "t", ip := look "i", uri := look "u", http := fun r v => look (if r then "h1" else "h0") v,
-    gz := fun off => (gzs.find? (fun e => e.1 == off)).map (·.2) }
+    -- the table is keyed by stream offset; the model asks with the bytes that remain: offset = total - remaining
+    gz := fun b => (gzs.find? (fun e => e.1 == total - b.length)).map (·.2) }
 
 def kindStr : BlockKind → String
   | .generic => "generic" | .httpReq => "httpReq" | .httpResp => "httpResp" | .revisit => "revisit" | .warcFields => "warcFields"
@@ -50,7 +51,7 @@ def showRec (r : Rec) : String :=
 def handleUnmarshal (args : List String) : String :=
   match args with
   | o :: fault :: d :: orc :: _ =>
-    let res := unmarshal realH (parseOpts o) (parseOracles orc) ⟨hx d, parseBool fault⟩
+    let res := unmarshal realH (parseOpts o) (parseOracles orc (hx d).length) ⟨hx d, parseBool fault⟩
     match res.err, res.record with
     | none, some r => s!"ok off={res.offset} {showRec r} fnd={showTags res.fnd} rest={res.rest.length}"
     | none, none => "ok-without-record"
@@ -124,7 +125,7 @@ def xpolSummary (run : Opts → Option Tag × List Tag) (base : Opts) : String :
 def handleXpol (args : List String) : String :=
   match args with
   | o :: fault :: d :: orc :: _ =>
-    let Ω := parseOracles orc
+    let Ω := parseOracles orc (hx d).length
     xpolSummary (fun o' => let r := unmarshal realH o' Ω ⟨hx d, parseBool fault⟩; (r.err, r.fnd)) (parseOpts o)
   | _ => "bad-args"
 
